@@ -387,7 +387,9 @@ impl<K, V> BTreeMap<K, V> {
     pub fn new() -> (r: BTreeMap<K, V>) ensures r@ == Map::<K, V>::empty() { unimplemented!() }
     // std: "If the map did have this key present, the value is updated"
     #[verifier::external_body]
-    pub fn insert(&mut self, k: K, v: V) -> (r: Option<V>) ensures final(self)@ == old(self)@.insert(k, v) { unimplemented!() }
+    pub fn insert(&mut self, k: K, v: V) -> (r: Option<V>)
+        ensures final(self)@ == old(self)@.insert(k, v), r == (if old(self)@.contains_key(k) { Some(old(self)@[k]) } else { None::<V> }),
+    { unimplemented!() }
     #[verifier::external_body]
     pub fn keys<'a>(&'a self) -> (r: MapKeys<'a, K, V>) ensures r.m == self { unimplemented!() }
     // std: a mutable reference to the value stored under the key; writing through it changes that entry only
@@ -1411,12 +1413,21 @@ def tr_loops(text):
     leaf = m.group(1)
     text = text[:m.start()] + """let leaves_vec_ = tr_leaves_as_vec(spend_info.leaves());
         let ghost snap2_ = *item;
-        for %s in it2_: leaves_vec_
-            invariant it2_.seq() == leaves_vec_@, l2_inv(t1_, item.v_tko(), es_, leaves_, it2_.index() as int, 0), ts_inv(ts0_, item.v_ts(), leaves_, it2_.index() as int), %s,
+        let mut i2_: usize = 0;
+        while i2_ < leaves_vec_.len()
+            invariant
+                i2_ <= leaves_vec_@.len(),
+                l2_inv(t1_, item.v_tko(), es_, leaves_, i2_ as int, 0), //@@ tr.key_origins.leaf_hash_added_to_every_key_of_the_leaf
+                ts_inv(ts0_, item.v_ts(), leaves_, i2_ as int), //@@ tr.tap_scripts.leaf_recorded_under_its_control_block
+                %s,
+            decreases leaves_vec_@.len() - i2_,
         {
-            let ghost ln_ = it2_.index() as int;
+            let %s = &leaves_vec_[i2_];
+            i2_ += 1;
+            let ghost ln_ = i2_ as int - 1;
             proof { axiom_leaf_keys(leaves_vec_@[ln_]); assert(leaves_vec_@[ln_].view() == leaves_[ln_]); }
-            let ghost tsb_ = item.v_ts();""" % (leaf, FRAME % "snap2_") + text[m.end():]
+            let ghost tsb_ = item.v_ts();
+            proof { if tsb_ is Some { lemma_ins_step(ts0_->Some_0, tsb_->Some_0, leaf_cbs(leaves_), leaf_scripts(leaves_), ln_); } }""" % (FRAME % "snap2_", leaf) + text[m.end():]
     # loop 3: for pk in leaf.miniscript().iter_pk()   (+ the script-map step before it, the leaf-done step after it)
     m = re.search(r"for (\w+) in (%s\.miniscript\(\)\.iter_pk\(\))\s*\{" % re.escape(leaf), text)
     if not m:
@@ -1424,23 +1435,29 @@ def tr_loops(text):
     close = match_close(text, m.end() - 1)
     body = text[m.end():close]
     head = """proof {
-                if tsb_ is Some {
-                    lemma_ins_step(ts0_->Some_0, tsb_->Some_0, leaf_cbs(leaves_), leaf_scripts(leaves_), ln_);
-                    assert(item.v_ts()->Some_0 =~= tsb_->Some_0.insert(leaf_cbs(leaves_)[ln_], leaf_scripts(leaves_)[ln_]));
-                }
+                if tsb_ is Some { assert(item.v_ts()->Some_0 =~= tsb_->Some_0.insert(leaf_cbs(leaves_)[ln_], leaf_scripts(leaves_)[ln_])); }
             }
             let keys_vec_ = pk_iter_as_vec(%s);
-            for %s in it3_: keys_vec_
-                invariant it3_.seq() == leaves_[ln_].keys, l2_inv(t1_, item.v_tko(), es_, leaves_, ln_, it3_.index() as int), ts_inv(ts0_, item.v_ts(), leaves_, ln_ + 1), %s,
+            let mut i3_: usize = 0;
+            while i3_ < keys_vec_.len()
+                invariant
+                    i3_ <= keys_vec_@.len(), keys_vec_@ == leaves_[ln_].keys,
+                    l2_inv(t1_, item.v_tko(), es_, leaves_, ln_, i3_ as int), //@@ tr.key_origins.leaf_hash_added_to_every_key_of_the_leaf
+                    ts_inv(ts0_, item.v_ts(), leaves_, ln_ + 1), //@@ tr.tap_scripts.leaf_recorded_under_its_control_block
+                    %s,
+                decreases keys_vec_@.len() - i3_,
             {
+                let %s = keys_vec_[i3_];
+                i3_ += 1;
+                let ghost kn_ = i3_ as int - 1;
                 let ghost tb_ = item.v_tko();
-                let ghost xk_ = xonly_of(leaves_[ln_].keys[it3_.index() as int].inner);
+                let ghost xk_ = xonly_of(leaves_[ln_].keys[kn_].inner);
                 let ghost h_ = leaves_[ln_].leaf_hash;
                 proof {
                     assert(is_new(es_, xk_));
                     let j_ = choose|j_: int| hit(ent_x(es_), es_.len() as int, j_, xk_);
                     assert(t1_.contains_key(xk_));
-                }""" % (m.group(2), m.group(1), FRAME % "snap2_")
+                }""" % (m.group(2), FRAME % "snap2_", m.group(1))
     tail = """    proof {
                     let v_ = item.v_tko()[xk_];
                     let s0_ = tb_[xk_].0@;
@@ -1453,7 +1470,7 @@ def tr_loops(text):
                         assert(v_.0@ =~= s0_.push(h_));
                         lemma_push_contains(s0_, h_);
                     }
-                    lemma_l2_key_step(t1_, tb_, es_, leaves_, ln_, it3_.index() as int, v_);
+                    lemma_l2_key_step(t1_, tb_, es_, leaves_, ln_, kn_, v_);
                 }
             """
     text = text[:m.start()] + head + body + tail + "}\n            proof { lemma_l2_leaf_done(t1_, item.v_tko(), es_, leaves_, ln_); }" + text[close + 1:]
@@ -1620,7 +1637,7 @@ DROPPED = [
     "c14_update: construct_tap_witness: `<PsbtInputSatisfier as Satisfier<XOnlyPublicKey>>::f(sat, ..)` -> `PsbtInputSatisfier::f(sat, ..)` (inherent stubs carrying the clauses c14_psbt_satisfier proves; R7); the hash -> x-only key loops as in get_descriptor (R8); `for (control_block, (script, ver)) in block_map { .. continue .. }` -> index `while` loop over btree_iter_as_vec (R8: Verus' `for` has no `continue`; body verbatim); which candidate is the smallest (witness_size, Option<usize> ordering) is not claimed; finalize_input_helper, interpreter_check, prevouts are out of this unit (c14_finalize)",
     "c14_update: trait impls are emitted as inherent methods where a precondition-free inherent form suffices (`Translator<DefiniteDescriptorKey> for KeySourceLookUp::pk` with Self::TargetPk / Self::Error written out, `PsbtExt for Psbt::update_{input,output}_with_descriptor`, `Psbt{Input,Output}Ext::update_with_descriptor_unchecked`); `impl PsbtFields for psbt::Input / Output` stay trait impls of the Verus rendering of the trait; the trait's default bodies (`tap_tree`, `tap_scripts`, `tap_merkle_root` -> None) are emitted into the impl that inherits them",
     "c14_update: `Descriptor::translate_pk` is consumed at T = KeySourceLookUp through a contract (structure rebuilt, `pk` called once per key in order: C20), DefiniteDescriptorKey's derivation / fingerprint / path are uninterpreted (c16_keys); `.map_err(UtxoUpdateError::DerivationError)` is eta-expanded (R12')",
-    "c14_update: update_item_with_descriptor_helper, taproot branch: `for (k, v) in xpub_map`, `for leaf in spend_info.leaves()`, `for pk in leaf.miniscript().iter_pk()` iterate the vectors btree_into_vec / tr_leaves_as_vec / pk_iter_as_vec (R8, headers only); `for (hashes, _) in item.tap_key_origins().values_mut() { hashes.sort(); hashes.dedup(); }` -> `btree_values_mut_sort_dedup(..)` with the body lifted into `sort_dedup_step` (`.sort()` / `.dedup()` -> vec_sort / vec_dedup) and verified against the per-value relation of the stub (R14 / R16); invariants and lemma calls are ghost (R10); `#[verifier::loop_isolation(false)]`",
+    "c14_update: update_item_with_descriptor_helper, taproot branch: `for (k, v) in xpub_map` iterates the vector btree_into_vec (R8, header only), `for leaf in spend_info.leaves()` and `for pk in leaf.miniscript().iter_pk()` are index `while` loops over tr_leaves_as_vec / pk_iter_as_vec (R8: element bound first, index advanced, body verbatim -- so that a `continue` in the body is expressible; the leaf is bound by reference); `for (hashes, _) in item.tap_key_origins().values_mut() { hashes.sort(); hashes.dedup(); }` -> `btree_values_mut_sort_dedup(..)` with the body lifted into `sort_dedup_step` (`.sort()` / `.dedup()` -> vec_sort / vec_dedup) and verified against the per-value relation of the stub (R14 / R16); invariants and lemma calls are ghost (R10); `#[verifier::loop_isolation(false)]`",
     "c14_update: Plan::update_psbt_input: the taproot branch (local enum / struct definitions, `fold` with a state-capturing closure, BTreeMap entry API) is replaced by a stub with an arbitrary effect on the input (R9: nothing claimed for tr plans); the two `for` loops of the other branch keep their text and get ghost iterator names and invariants (R10); `Placeholder`'s associated hash types `Pk::Sha256` .. are written as the concrete hash types of DefiniteDescriptorKey (R7)",
     "c14_update: NOT decided here: that the recorded values are the right BYTES (hash160 / sha256 / taproot hashes, BIP32 derivation, script encoding are uninterpreted; C04 / C15 / C16 units), fields of psbt::Input / Output not reachable through PsbtFields are framed only for update_{input,output}_with_descriptor at the granularity `other inputs / outputs / globals unchanged`",
 ]
@@ -1653,7 +1670,7 @@ def build(repo):
              "bitcoin-crate and out-of-unit types as opaque values; each encoder is an uninterpreted function (P2SH, P2WSH, P2WPKH, P2PKH, enc); "
              "CompressedPublicKey::try_from succeeds iff the key is compressed; to_p2sh / to_p2wsh / Address::p2* apply the named encoder")
     vf.trust("imported BTreeMap model of units/c14_psbt_satisfier.py (uninterpreted Map view; get / iter / Iter::find, Option::copied) + new / insert / keys / append, btree_keys_as_vec",
-             "std semantics: find returns an entry satisfying the predicate or None if none does; insert overwrites; append moves every entry of `other` "
+             "std semantics: find returns an entry satisfying the predicate or None if none does; insert overwrites and returns the previous value; append moves every entry of `other` "
              "into `self`, the entries of `other` winning, and leaves `other` empty; keys() yields exactly the keys")
     vf.trust("opaque dependency values (secp256k1 keys, Txid, Amount, Witness, taproot / bip32 / hash types) incl. PartialEqSpecImpl glue and ScriptBuf::clone",
              "only moved around and compared; derived PartialEq is structural equality; Clone returns an equal value")
@@ -1850,6 +1867,7 @@ def build(repo):
                      (r"assert\(item\.v_ts\(\)->Some_0 =~= ", "tr.tap_scripts.leaf_recorded_under_its_control_block"),
                      (r"lemma_tr_final\(", "tr.key_origins.loops_establish_the_bip371_statements")):
         PS.register_call_site(vf, HELPER, pat, Clause(tag, C14, "loop step of the taproot branch (see the invariants l1_inv / l2_inv / ts_inv)"))
+    PS.register_closure_clauses(vf, HELPER, lambda tag: C14)
     # the body of `for (hashes, _) in item.tap_key_origins().values_mut() { .. }`, lifted (R14 / R16)
     reg_h = repo.at(PMOD, "fn:update_item_with_descriptor_helper")
     var, lifted = tr_loops.lifted
